@@ -338,8 +338,11 @@ def run_job(unit, job, scratch, tier):
         if desc.startswith("WITNESS"):
             if st == "FAILURE":
                 r["witnesses_ok"] += 1
-            else:
+                r.setdefault("wit_reached", []).append(desc)
+            elif job.get("all_witnesses", False):
                 r["witnesses_bad"].append(desc)
+            else:
+                r.setdefault("wit_unreached", []).append(desc)
             continue
         mf = [m for m in must_fail if m in desc]
         if mf:
@@ -572,6 +575,14 @@ def main():
                 log("  %-40s %-8s %7.1fs %6dMB props=%d wit=%d  %s" % (
                     j["entry"], r["backend"], r["wall_s"], r["max_rss_kb"] // 1024, r["n_props"], r["witnesses_ok"], tag))
         results.sort(key=lambda r: r["entry"])
+        # every witness label must be reachable in at least one obligation of this run
+        reached = {(r["job"]["entry"], w) for r in results for w in r.get("wit_reached", [])}
+        for r in results:
+            if r["broken"]:
+                continue
+            for w in r.get("wit_unreached", []):
+                if (r["job"]["entry"], w) not in reached and only is None:
+                    r["broken"] = "vacuity guard: witness never reachable in any configuration: " + w
         known = load_known(pid)
         violations, known_hits, broken = [], [], []
         for r in results:
@@ -627,7 +638,7 @@ def main():
         # ---------------- evidence
         n_props = sum(r["n_props"] for r in results)
         n_succ = sum(r["n_success"] for r in results)
-        nontrivial = sum(1 for r in results if not r["broken"] and (r["witnesses_ok"] > 0 or r["must_fail_ok"]))
+        nontrivial = sum(r["witnesses_ok"] + len(r["must_fail_ok"]) for r in results if not r["broken"])
         samples = []
         for r in results[:400]:
             j = r["job"]
@@ -674,9 +685,10 @@ def main():
                 evaluations=n_props,
                 distinct_nontrivial=nontrivial,
                 rule="evaluations = CBMC properties (assertions, pointer/bounds/overflow checks, unwinding assertions) "
-                     "decided by the solver over all symbolic inputs within the bounds; distinct_nontrivial = harness "
-                     "obligations (entry function x bound set) whose vacuity witness (assert(0) after the last real "
-                     "assertion, or a mutated-spec twin) was shown reachable/failing by the solver in this run",
+                     "decided by the solver over all symbolic inputs within the bounds; distinct_nontrivial = number of "
+                     "distinct vacuity witnesses (an assert(0) placed in a named interesting branch after the real "
+                     "assertions, or a mutated-spec twin) that the solver showed reachable/failing in this run, i.e. "
+                     "distinct behaviour classes (exact fit, one short, overflow, growth, ...) proven to lie inside the explored space",
                 samples=samples,
                 obligations=len(results),
                 discharged=sum(1 for r in results if not r["broken"] and not r["failures"]),
